@@ -239,7 +239,7 @@ func c20RunSet(c *Ctx, st *c20Stats, p0 []v2.Vec, meta c20Meta, key string, slow
 //-----------------------------------------------------------------------------
 // generators (unit coordinates; scaled and offset afterwards)
 
-var c20Dists = []string{"uniform", "clustered", "grid", "hullchain", "cocircular"}
+var c20Dists = []string{"uniform", "clustered", "grid", "hullchain", "cocircular", "rows"}
 
 func c20GenUnit(r *Rng, n int, dist string) []v2.Vec {
 	p := make([]v2.Vec, 0, n)
@@ -274,6 +274,22 @@ func c20GenUnit(r *Rng, n int, dist string) []v2.Vec {
 		cells := r.Perm(m * m)[:n]
 		for _, cidx := range cells {
 			p = append(p, v2.Vec{X: (float64(cidx%m) + 0.5 + jit*r.R(-0.5, 0.5)) / float64(m), Y: (float64(cidx/m) + 0.5 + jit*r.R(-0.5, 0.5)) / float64(m)})
+		}
+	case "rows": // pairs of points share exactly the same y (no three collinear): equal coordinates are general position too
+		for i := 0; i < n; i += 2 {
+			y := r.F()
+			p = append(p, v2.Vec{X: r.F(), Y: y})
+			if i+1 < n {
+				if r.P(0.8) {
+					p = append(p, v2.Vec{X: r.F(), Y: y})
+				} else {
+					p = append(p, v2.Vec{X: p[len(p)-1].X, Y: r.F()}) // or the same x
+				}
+			}
+		}
+		for i := len(p) - 1; i > 0; i-- { // shuffle: the sharing points need not be adjacent in the input
+			j := r.I(i + 1)
+			p[i], p[j] = p[j], p[i]
 		}
 	case "cocircular": // all points within a relative nu of one circle (0-2 interior points): every in-circle decision is close
 		nu := r.LogR(3e-6, 1e-2)
